@@ -50,16 +50,34 @@ theorem C18_scaled_exact_small_orders (d : Rat) (hd : d ≠ 0) :
     scaledCD d 0 = 0 ∧ scaledCD d 1 = 1 ∧ scaledCD d 2 = 2 ∧ scaledCD d 3 = 3 + d ^ 2 := by
   refine ⟨?_, ?_, ?_, ?_⟩ <;> (simp only [scaledCD]; grind)
 
-/-- the recurrence behind the general case: with `c n = ((1+d)^n + (1−d)^n)/2`,
-    `s (n+1) = s n + c n` and `c (n+1) = c n + d²·s n`; so the bias of order `n` is a polynomial in
-    `d²` without constant term -/
-theorem C18_scaled_recurrence (d : Rat) (hd : d ≠ 0) (n : Nat) :
-    scaledCD d (n + 1) = scaledCD d n + ((1 + d) ^ n + (1 - d) ^ n) / 2 ∧
-    ((1 + d) ^ (n + 1) + (1 - d) ^ (n + 1)) / 2 = ((1 + d) ^ n + (1 - d) ^ n) / 2 + d ^ 2 * scaledCD d n := by
-  simp only [scaledCD, Rat.pow_succ]
-  generalize (1 + d) ^ n = P
-  generalize (1 - d) ^ n = Q
-  constructor <;> grind
+/-- GENERAL ORDER: the scaled central difference never underestimates the kinetic order and
+    exceeds it by at most the factor `Π_{k<n} (1 + k·d²)` — a bias of order `d²` for every fixed `n`
+    (`prodUp d 3 = 1 + 3d² + 2d⁴`; the true value for `n = 3` is `3 + d²`).  Holds for every
+    displacement `d ≠ 0`, of either sign. -/
+theorem C18_scaled_error_bound (d : Rat) (hd : d ≠ 0) (n : Nat) :
+    (n : Rat) ≤ scaledCD d n ∧ scaledCD d n ≤ (n : Rat) * prodUp d n := by
+  obtain ⟨h1, h2⟩ := cd_upper d hd n
+  refine ⟨(cd_lower d hd n).1, Rat.le_trans h1 ?_⟩
+  exact Rat.mul_le_mul_of_nonneg_left h2 (by exact_mod_cast Nat.zero_le n)
+
+/-- every entry of a `variable_elasticities` column IS such a quotient of three flux evaluations
+    (links `coef` to the executed routine) -/
+theorem C18_variable_elasticity_entries (c : Content) (vars : Row) (t : Rat) (normalized : Bool) (d : Rat)
+    (var : Name) (col : Column) (h : varElasticityOf c vars t normalized d var = .ok col) :
+    ∃ old up lo base, vars.lookup var = some old ∧
+      getFluxes c (some (setState vars var (old * (1 + d)))) t = .ok up ∧
+      getFluxes c (some (setState vars var (old * (1 - d)))) t = .ok lo ∧
+      (normalized = true → getFluxes c (some vars) t = .ok base) ∧
+      col = zip3 up lo base (coef normalized d old) := by
+  unfold varElasticityOf at h
+  obtain ⟨old, hold, h⟩ := bind_ok h
+  obtain ⟨up, hup, h⟩ := bind_ok h
+  obtain ⟨lo, hlo, h⟩ := bind_ok h
+  obtain ⟨base, hbase, h⟩ := bind_ok h
+  simp only [pure, Except.pure, Except.ok.injEq] at h
+  refine ⟨old, up, lo, base, getKey_ok hold, hup, hlo, ?_, h.symm⟩
+  intro hn
+  simpa [baseFlux, hn] using hbase
 
 /-- a parameter elasticity is the same quotient with the parameter in the role of `x` -/
 theorem C18_parameter_elasticity_linear (B k d : Rat) (hB : B ≠ 0) (hk : k ≠ 0) (hd : d ≠ 0) :
